@@ -255,6 +255,18 @@ func RunC12(d *Driver) *Report {
 			}
 		}
 	}
+	// 3c. assigning to an existing key stores the new value, also when it is equal to the old one: the map then shares
+	// the NEW composite (set / has / del / len / range through the old alias are unchanged)
+	for _, src := range []string{
+		"a := {x:1}\nb := {x:1}\nm := {i:a j:a}\nalias := m\nalias.i = b\nb.y = 2\nprint m a b (has m.i \"y\") (len m.i) (len m.j)\ndel a \"x\"\nprint m a b\nfor k := range m.i\n    print k\nend\n",
+		"p := [1 2]\nq := [1 2]\nm := {i:p j:p}\nm[\"i\"] = q\nq[0] = 9\nprint m p q\np[1] = 8\nprint m p q (len m)\nfor k := range m\n    print k m[k]\nend\n",
+		"m := {k:1 j:1}\nm.k = 1\nm.j = m.k\nm.k = 2\nprint m\nw:{}any\ne1 := {}\ne2 := {}\nw.a = e1\nw.a = e2\ne2.z = 1\nprint w e1 e2\n",
+	} {
+		c := evalStream(r, d, "overwrite", src, RunOpts{}, parts, true, nil)
+		if c.Skipped == "rejected" {
+			r.Disagree(Case{Stream: "overwrite", Input: src, Real: "rejected: " + c.Real.ParseErr, Note: "harness program should be accepted"})
+		}
+	}
 	// 4. equality: two maps are equal iff they have the same keys with equal values, in any order
 	type kv struct {
 		k string
